@@ -274,6 +274,33 @@ func narrowWrapRule(c *Ctx, r *Result, rule string) {
 				r.Hold(rule, c.Name(fn)+"#narrow-"+bo.Op.String(), c.InstrPos(bo), "operand ranges keep the result inside "+bt.Name())
 				return
 			}
+			// with the tests that dominate the operation
+			_, thi := fb.typeRange(bo.Type())
+			fits := false
+			switch bo.Op {
+			case token.ADD:
+				fits = fb.ProveGE0At(linConst(thi).add(fb.lin(bo.X), -1).add(fb.lin(bo.Y), -1), bo)
+			case token.SUB:
+				fits = fb.ProveGE0At(fb.lin(bo.X).add(fb.lin(bo.Y), -1), bo)
+			case token.SHL:
+				if k, isK := constInt(bo.X); isK && k > 0 {
+					maxShift := int64(0)
+					for (k << uint(maxShift+1)) <= thi {
+						maxShift++
+					}
+					fits = fb.ProveGE0At(linConst(maxShift).add(fb.lin(bo.Y), -1), bo) && fb.ProveGE0At(fb.lin(bo.Y), bo)
+				}
+			case token.MUL:
+				if k, isK := constInt(bo.Y); isK && k > 0 {
+					fits = fb.ProveGE0At(linConst(thi/k).add(fb.lin(bo.X), -1), bo)
+				} else if k, isK := constInt(bo.X); isK && k > 0 {
+					fits = fb.ProveGE0At(linConst(thi/k).add(fb.lin(bo.Y), -1), bo)
+				}
+			}
+			if fits {
+				r.Hold(rule, c.Name(fn)+"#narrow-"+bo.Op.String(), c.InstrPos(bo), "the dominating tests keep the result inside "+bt.Name())
+				return
+			}
 			per[c.Name(fn)] = append(per[c.Name(fn)], undecidedItem{c.InstrPos(bo), "the " + bt.Name() + " operation " + bo.Op.String() + " is not shown to stay inside the type (it wraps)"})
 		})
 	}
